@@ -452,6 +452,12 @@ class Program:
                 q = (e['name'] + '::' + nm) if e.get('scoped') else ((pre + '::' + nm) if pre else nm)
                 self.enumerators[q] = (e['name'], val)
         self._callers = None
+        # lambdas know the function they are written in (captured variables resolve there)
+        for fn in list(self.funcs.values()):
+            for n in fn.all_nodes():
+                g = self.funcs.get(n.get('lambda')) if n.get('lambda') else None
+                if g is not None and g is not fn:
+                    g.enclosing = fn
         self._apply_frozen_names()
 
     # -- names ---------------------------------------------------------------
@@ -519,6 +525,18 @@ class Program:
             r = n.get('ref')
             if r and r.get('k') == kind and r.get('id') == vid:
                 r['n'] = new
+        # captured uses inside the lambdas written in fn (their local ids are their own: resolve by name)
+        for n in fn.all_nodes():
+            g = self.funcs.get(n.get('lambda')) if n.get('lambda') else None
+            if g is None or g is fn or getattr(g, 'enclosing', None) is not fn:
+                continue
+            own = {x.get('name') for x in g.all_nodes() if x['k'] == 'VarDecl'} | {q.get('name') for q in g.params}
+            if old in own:
+                continue
+            for x in g.all_nodes():
+                r = x.get('ref')
+                if r and r.get('k') in ('Local', 'Parm') and r.get('n') == old:
+                    r['n'] = new
         self.renamed.append((fn.id, kind, old, new))
 
     # -- lookup -------------------------------------------------------------
